@@ -35,7 +35,8 @@ def build():
     from glue.core.link_helpers import LinkSame
     from glue.core.coordinates import AffineCoordinates
     rng = np.random.RandomState(5)
-    aff_r = np.array([[2.0, 0, 0, 1.0], [0, 1.5, 0, -2.0], [0, 0, 0.5, 0.25], [0, 0, 0, 1]])
+    # a sheared (non-symmetric) frame: world x reads pixel y as well, not the other way round
+    aff_r = np.array([[2.0, 0.4, 0, 1.0], [0, 1.5, 0, -2.0], [0, 0, 0.5, 0.25], [0, 0, 0, 1]])
     R = Data(label='R', v=rng.uniform(-5, 5, R_SHAPE).round(2), u=rng.uniform(10, 20, R_SHAPE).round(2), coords=AffineCoordinates(aff_r))
     dc = DataCollection([R])
     src = {'R': (R, lambda p: list(p))}
